@@ -132,3 +132,6 @@ macro_rules! frechet_affine {
 }
 frechet_affine!(c07_frechet_affine_shape2_f32, 2.0);
 frechet_affine!(c07_frechet_affine_shape075_f32, 0.75);
+
+// (a two-run unit for SkewNormal's exact fast paths (shape 0, +1, -1) was tried: each run walks the ziggurat twice and
+// the unit did not finish in 50 min with Kissat - SkewNormal is not reached for C07)
